@@ -22,6 +22,9 @@ from . import c01, c06
 BR = list("()[]{}")
 TEMPLATES = [("void f(void) { x = a %s ; }", " "), ("void f(void) { x = a %s ; }", " a "),
              ("int x %s ;", " "), ("int x %s ;", " 3 "), ("void f(void) { %s }", " "), ("void f(void) { %s }", " ; ")]
+# text after the line number / file name / flags of a line directive, on the directive's own line
+DIRHEADS = ['# 3 "f.c" ', '#line 3 "f.c" ', '# 3 "f.c" 1 2 ', '# 3 ', '#line 3 ', '  #  3  "f.c"  1  ']
+DIRTAILS = ["@", "`", "\\", "/*", "//", "/* c */", "#define X 1", "x", ")", "}", "1 @", "1.5", "-1", "'a'", "int y;", "1 \"g\""]
 NONTOKENS = ["@", "`", "\\", "/*", "//", "\n#define X 1\n", "\n#if 1\n", "\n#include <a.h>\n", "\n#error x\n"]
 
 
@@ -80,6 +83,16 @@ def _mut_work(args):
                 bad.append(("accepted injection of %r" % x, src))
             elif k.startswith("bad") and k != "bad:location-prefix":
                 bad.append(("injection of %r not rejected with ParseError: %s %s" % (x, k, d), src))
+        for _ in range(4):
+            i = rnd.randrange(len(vals) + 1)
+            x = "\n" + rnd.choice(DIRHEADS) + rnd.choice(DIRTAILS) + "\n"
+            src = " ".join(vals[:i] + [x] + vals[i:])
+            n += 1
+            k, d = classify(src, "f.c", check_loc=False)
+            if k == "ok":
+                bad.append(("accepted line directive with trailing text %r" % x, src))
+            elif k.startswith("bad") and k != "bad:location-prefix":
+                bad.append(("line directive with trailing text %r not rejected with ParseError: %s %s" % (x, k, d), src))
     return n, bad
 
 
